@@ -46,6 +46,185 @@ func init() {
 			{Name: "c01-twin", Overlay: libOverlay("C01/c01.go"), Pkg: "libvore", Entry: "VerifC01", Twin: true,
 				Args: func(tier string, l *Loaded) [][]int64 { return [][]int64{{0, 2, 0, 1}} }},
 		}}
+	tOf := func(tier string, q, th int64) int64 {
+		if tier == "thorough" {
+			return th
+		}
+		return q
+	}
+	properties["C02"] = &PropertySpec{ID: "C02",
+		Rule:        "capture-bearing shapes (captures under alternation, optional/repeated groups, subroutine calls, followed by constructs that can fail; back-references) x all ASCII texts of length 0..T (quick 3, thorough 5); literal bytes symbolic in the second group",
+		Assumptions: []string{"ASCII text", "distinct loop ids", "unbound or empty back-references are assumed away (statement silent / C09)"},
+		Groups: []JobGroup{
+			{Name: "c02", Overlay: libOverlay("C02/c02.go"), Pkg: "libvore", Entry: "VerifC02", PanicOK: true,
+				Args: func(tier string, l *Loaded) [][]int64 {
+					return seqArgs(countOf(l, "libvore", "VerifC02Count"), tOf(tier, 3, 5), 0, 0)
+				}},
+			{Name: "c02-symlit", Overlay: libOverlay("C02/c02.go"), Pkg: "libvore", Entry: "VerifC02", PanicOK: true,
+				Args: func(tier string, l *Loaded) [][]int64 {
+					return seqArgs(countOf(l, "libvore", "VerifC02Count"), tOf(tier, 3, 4), 3, 0)
+				}},
+			{Name: "c02-twin", Overlay: libOverlay("C02/c02.go"), Pkg: "libvore", Entry: "VerifC02", Twin: true, PanicOK: true,
+				Args: func(tier string, l *Loaded) [][]int64 { return [][]int64{{0, 2, 0, 1}} }},
+		}}
+	properties["C03"] = &PropertySpec{ID: "C03",
+		Rule:        "shapes incl. whole line/file/word, regex literals, named loops, replace, multi-command (harness/C03/c03.go) x texts of length 0..T: ASCII with column claim (quick 3, thorough 5) and all 256 byte values without column claim (quick 3, thorough 4)",
+		Assumptions: []string{"column claim for ASCII inputs only (as the property states)"},
+		Groups: []JobGroup{
+			{Name: "c03-ascii", Overlay: libOverlay("C03/c03.go"), Pkg: "libvore", Entry: "VerifC03", PanicOK: true,
+				Args: func(tier string, l *Loaded) [][]int64 {
+					return seqArgs(countOf(l, "libvore", "VerifC03Count"), tOf(tier, 3, 5), 1, 0)
+				}},
+			{Name: "c03-bytes", Overlay: libOverlay("C03/c03.go"), Pkg: "libvore", Entry: "VerifC03", PanicOK: true,
+				Args: func(tier string, l *Loaded) [][]int64 {
+					return seqArgs(countOf(l, "libvore", "VerifC03Count"), tOf(tier, 3, 4), 0, 0)
+				}},
+			{Name: "c03-twin", Overlay: libOverlay("C03/c03.go"), Pkg: "libvore", Entry: "VerifC03", Twin: true, PanicOK: true,
+				Args: func(tier string, l *Loaded) [][]int64 { return [][]int64{{2, 2, 1, 1}} }},
+		}}
+	properties["C04"] = &PropertySpec{ID: "C04",
+		Rule:        "bodies whose occurrences can overlap or abut (harness/C04/c04.go) x ASCII texts of length 0..T (find quick 3 / thorough 5; replace 3 / 4; 'aa' and 'ab' with symbolic literal bytes at T=4 / 5) x symbolic s,t,n in [0,4]; find and replace; amount clause -> tuple mapping checked on the real lexer+parser with symbolic one- and two-digit numbers",
+		Assumptions: []string{"ASCII text", "s,t,n <= 4 (straddles len(A) <= T)"},
+		Groups: []JobGroup{
+			{Name: "c04-find", Overlay: libOverlay("C04/c04.go"), Pkg: "libvore", Entry: "VerifC04", PanicOK: true,
+				Args: func(tier string, l *Loaded) [][]int64 {
+					return seqArgs(countOf(l, "libvore", "VerifC04Count"), tOf(tier, 3, 5), 0, 0, 0)
+				}},
+			{Name: "c04-replace", Overlay: libOverlay("C04/c04.go"), Pkg: "libvore", Entry: "VerifC04", PanicOK: true,
+				Args: func(tier string, l *Loaded) [][]int64 {
+					return seqArgs(countOf(l, "libvore", "VerifC04Count"), tOf(tier, 3, 4), 1, 0, 0)
+				}},
+			{Name: "c04-symlit", Overlay: libOverlay("C04/c04.go"), Pkg: "libvore", Entry: "VerifC04", PanicOK: true,
+				Args: func(tier string, l *Loaded) [][]int64 {
+					return seqArgs(4, tOf(tier, 4, 5), 0, 2, 0)[1:3]
+				}},
+			{Name: "c04-amount", Overlay: libOverlay("C04/c04.go"), Pkg: "libvore", Entry: "VerifC04Amount",
+				Args: func(tier string, l *Loaded) [][]int64 { return seqArgs(8) }},
+			{Name: "c04-twin", Overlay: libOverlay("C04/c04.go"), Pkg: "libvore", Entry: "VerifC04", Twin: true, PanicOK: true,
+				Args: func(tier string, l *Loaded) [][]int64 { return [][]int64{{0, 2, 0, 0, 1}} }},
+		}}
+	properties["C05"] = &PropertySpec{ID: "C05",
+		Rule:        "6 capture-bearing bodies x 15 with-lists mixing strings, captures, built-ins, undefined names and three transforms (harness/C05/c05.go) x ASCII texts of length 0..T (quick 3, thorough 5)",
+		Assumptions: []string{"ASCII text", "the three fixed transforms (evaluation of arbitrary expressions is C11's subject)"},
+		Groups: []JobGroup{
+			{Name: "c05", Overlay: libOverlay("C05/c05.go"), Pkg: "libvore", Entry: "VerifC05", PanicOK: true,
+				Args: func(tier string, l *Loaded) [][]int64 {
+					return seqArgs(countOf(l, "libvore", "VerifC05Count"), tOf(tier, 3, 5), 0)
+				}},
+			{Name: "c05-twin", Overlay: libOverlay("C05/c05.go"), Pkg: "libvore", Entry: "VerifC05", Twin: true, PanicOK: true,
+				Args: func(tier string, l *Loaded) [][]int64 { return [][]int64{{0, 2, 1}} }},
+		}}
+	allLib := libOverlay("C01/c01.go", "C02/c02.go", "C03/c03.go", "C09/c09.go")
+	properties["C09"] = &PropertySpec{ID: "C09",
+		Rule:        "boundary programs (empty bodies/literals/captures, whole-*, multi-byte ranges, named loops, predicates and transforms incl. division, mixed-type variables) plus every C01/C02/C03 shape x texts of length 0..T (ASCII quick 3 / thorough 4; all bytes quick 2 / thorough 3) through Run; RunFiles over the model file system is exercised by the C06/C07 harnesses whose panics are reported here",
+		Assumptions: []string{"process code terminates", "subroutines consume before recursing"},
+		Groups: []JobGroup{
+			{Name: "c09-ascii", Overlay: allLib, Pkg: "libvore", Entry: "VerifC09",
+				Args: func(tier string, l *Loaded) [][]int64 {
+					return seqArgs(countOf(l, "libvore", "VerifC09Count"), tOf(tier, 3, 4), 1)
+				}},
+			{Name: "c09-bytes", Overlay: allLib, Pkg: "libvore", Entry: "VerifC09",
+				Args: func(tier string, l *Loaded) [][]int64 {
+					return seqArgs(countOf(l, "libvore", "VerifC09Count"), tOf(tier, 2, 3), 0)
+				}},
+		}}
+	properties["C10"] = &PropertySpec{ID: "C10",
+		Rule:        "family FN: 23 nullable bodies x 21 loop/alternation/subroutine/named-loop wrappers, plus not-in, negated classes, global patterns, whole-* and nullable regex loops (harness/C10/c10.go) x ASCII texts of length 0..T (quick 3, thorough 4); unwinding budget 3e6 SSA steps per path (measured maximum is in evidence)",
+		Assumptions: []string{"ASCII text", "a path that exhausts the unwinding budget is replayed natively under a 20 s timeout and only reported if the native run does not return"},
+		Groups: []JobGroup{
+			{Name: "c10", Overlay: libOverlay("C10/c10.go"), Pkg: "libvore", Entry: "VerifC10", BudgetIsViolation: true, Budget: 3_000_000, PanicOK: true,
+				Args: func(tier string, l *Loaded) [][]int64 {
+					return seqArgs(countOf(l, "libvore", "VerifC10Count"), tOf(tier, 3, 4))
+				}},
+		}}
+	properties["C13"] = &PropertySpec{ID: "C13",
+		Rule:        "18 capture-free bodies x 15 naming contexts (inline subroutine, global pattern referenced 1..3 times, prefix/suffix/loop/alternation contexts, nested globals) + 5 multi-command programs, x ASCII texts of length 0..T (quick 3, thorough 4); Run repeated, bytecode frozen during Run (write footprint), source recompiled",
+		Assumptions: []string{"ASCII text", "capture-free bodies (name clashes are by design)"},
+		Groups: []JobGroup{
+			{Name: "c13", Overlay: libOverlay("C13/c13.go"), Pkg: "libvore", Entry: "VerifC13", PanicOK: true,
+				Args: func(tier string, l *Loaded) [][]int64 {
+					return seqArgs(countOf(l, "libvore", "VerifC13Count"), tOf(tier, 3, 4), 0)
+				}},
+			{Name: "c13-twin", Overlay: libOverlay("C13/c13.go"), Pkg: "libvore", Entry: "VerifC13", Twin: true, PanicOK: true,
+				Args: func(tier string, l *Loaded) [][]int64 { return [][]int64{{0, 2, 1}, {300, 2, 1}} }},
+		}}
+	engOverlay := map[string][]string{"engine": {"C11/c11.go"}, "bytecode": {"C11/bytecode_shim.go"}}
+	srcOverlay := map[string][]string{"libvore": {"common/lib.go", "C12/c12.go"}, "bytecode": {"C11/bytecode_shim.go"}}
+	kindPairs := func(mode int64, maxLen int64) [][]int64 {
+		var out [][]int64
+		for l := int64(0); l < 6; l++ {
+			for r := int64(0); r < 6; r++ {
+				out = append(out, []int64{l, r, mode, maxLen, 0})
+			}
+		}
+		return out
+	}
+	nested := func(mode int64, tier string) [][]int64 {
+		var out [][]int64
+		if tier != "thorough" {
+			// (kinds, shape) pairs whose queries stay below a second; the two string-x-number products under an
+			// outer operator are thorough-only
+			for _, t := range [][4]int64{{0, 1, 2, 1}, {1, 0, 2, 0}, {1, 0, 2, 1}, {2, 1, 0, 0}, {2, 1, 0, 1}, {1, 1, 1, 0}, {1, 1, 1, 1}, {0, 0, 0, 0}, {0, 0, 0, 1},
+				{2, 2, 2, 0}, {2, 2, 2, 1}, {1, 2, 0, 0}, {1, 2, 0, 1}, {2, 0, 1, 0}, {4, 3, 5, 0}, {4, 3, 5, 1}} {
+				out = append(out, []int64{t[0], t[1], t[2], t[3], mode})
+			}
+			return out
+		}
+		ks := []int64{0, 1, 2}
+		for _, a := range ks {
+			for _, b := range ks {
+				for _, c := range ks {
+					out = append(out, []int64{a, b, c, 0, mode}, []int64{a, b, c, 1, mode})
+				}
+			}
+		}
+		for _, t := range [][3]int64{{3, 4, 5}, {4, 3, 5}, {5, 4, 3}, {4, 4, 3}, {3, 3, 4}} {
+			out = append(out, []int64{t[0], t[1], t[2], 0, mode}, []int64{t[0], t[1], t[2], 1, mode})
+		}
+		return out
+	}
+	unary := func(mode int64, maxLen int64) [][]int64 {
+		var out [][]int64
+		for k := int64(0); k < 6; k++ {
+			out = append(out, []int64{k, mode, maxLen})
+		}
+		return out
+	}
+	properties["C11"] = &PropertySpec{ID: "C11",
+		Rule:        "real executeExpression vs the documented table: 13 binary operators (symbolic choice) x 6x6 operand kinds (string/number/bool literal or variable) with symbolic values: strings of length 0..2 (thorough 3) over ASCII, full 64-bit ints, bools; unary not/head/tail; depth-2 trees of both shapes with symbolic operators; precedence/associativity of the real Pratt parser for 1..3 (thorough 4) symbolic operators, minimal and full parentheses",
+		Assumptions: []string{"numbers rendered as decimal strings or parsed from strings are assumed in [-999,999] (conversion loops)", "division/modulo by zero excluded here (C09)", "expressions mixing ==/!= with </>/<=/>= are assumed away in the precedence check (statement silent)"},
+		Groups: []JobGroup{
+			{Name: "c11-binop", Overlay: engOverlay, Pkg: "engine", Entry: "VerifC11Binop",
+				Args: func(tier string, l *Loaded) [][]int64 { return kindPairs(11, tOf(tier, 2, 3)) }},
+			{Name: "c11-unary", Overlay: engOverlay, Pkg: "engine", Entry: "VerifC11Unary",
+				Args: func(tier string, l *Loaded) [][]int64 { return unary(11, tOf(tier, 2, 3)) }},
+			{Name: "c11-nested", Overlay: engOverlay, Pkg: "engine", Entry: "VerifC11Nested",
+				Args: func(tier string, l *Loaded) [][]int64 { return nested(11, tier) }},
+			{Name: "c11-prec", Overlay: srcOverlay, Pkg: "libvore", Entry: "VerifC11Prec",
+				Args: func(tier string, l *Loaded) [][]int64 {
+					if tier == "thorough" {
+						return [][]int64{{1, 0}, {2, 0}, {3, 0}, {4, 0}}
+					}
+					return [][]int64{{1, 0}, {2, 0}, {3, 0}}
+				}},
+			{Name: "c11-twin", Overlay: engOverlay, Pkg: "engine", Entry: "VerifC11Binop", Twin: true,
+				Args: func(tier string, l *Loaded) [][]int64 { return [][]int64{{1, 1, 11, 1, 1}} }},
+		}}
+	properties["C12"] = &PropertySpec{ID: "C12",
+		Rule:        "real checker vs the documented typing table: all 13 binary operators x 6x6 operand kinds, unary operators x 6 kinds, depth-2 trees with symbolic operators (accept iff table, inferred type = table type, accepted code evaluates to that type); 18 statement skeletons x 23-expression menu per hole (symbolic choice) in transform and predicate context through the real lexer/parser/checker/Compile, accepted programs run on the VM",
+		Assumptions: []string{"each variable keeps one type (programs that re-type a variable are assumed away, as the property states)", "every loop of the statement skeletons terminates"},
+		Groups: []JobGroup{
+			{Name: "c12-binop", Overlay: engOverlay, Pkg: "engine", Entry: "VerifC11Binop",
+				Args: func(tier string, l *Loaded) [][]int64 { return kindPairs(12, tOf(tier, 1, 2)) }},
+			{Name: "c12-unary", Overlay: engOverlay, Pkg: "engine", Entry: "VerifC11Unary",
+				Args: func(tier string, l *Loaded) [][]int64 { return unary(12, tOf(tier, 1, 2)) }},
+			{Name: "c12-nested", Overlay: engOverlay, Pkg: "engine", Entry: "VerifC11Nested",
+				Args: func(tier string, l *Loaded) [][]int64 { return nested(12, tier) }},
+			{Name: "c12-stmt", Overlay: srcOverlay, Pkg: "libvore", Entry: "VerifC12Stmt",
+				Args: func(tier string, l *Loaded) [][]int64 { return seqArgs(countOf(l, "libvore", "VerifC12StmtCount"), 0) }},
+			{Name: "c12-twin", Overlay: srcOverlay, Pkg: "libvore", Entry: "VerifC12Stmt", Twin: true,
+				Args: func(tier string, l *Loaded) [][]int64 { return [][]int64{{0, 1}} }},
+		}}
 	properties["T00"] = &PropertySpec{ID: "T00", Groups: []JobGroup{{
 		Name: "toy2", Overlay: map[string][]string{"libvore": {"toy/toy2.go"}}, Pkg: "libvore", Entry: "VerifToy2",
 		Args: func(tier string, l *Loaded) [][]int64 { return [][]int64{{2}, {3}} },
